@@ -566,7 +566,9 @@ func limitsPart(s *stats) (n int, miss int) {
 	var missed vk.Counter
 	s.r.Parallel(len(ps), func(i int) {
 		p := ps[i]
-		r0 := s.fullCheck("limits", p.name, nil, p.script, deepBase, 400000, newWalker(), execOpts{mark: -1}, false)
+		w := newWalker()
+		r0 := s.fullCheck("limits", p.name, nil, p.script, deepBase, 400000, w, execOpts{mark: -1}, false)
+		s.merge(w)
 		bad := (p.want != "" && r0.State != p.want) || r0.MaxWalk < p.walk || r0.MaxInvoc < p.invoc || r0.MaxTry < p.try
 		if bad {
 			missed.Inc()
